@@ -7,6 +7,7 @@ import (
 	"go/ast"
 	"go/token"
 	"go/types"
+	"golang.org/x/tools/go/ssa"
 	"strings"
 
 	"golang.org/x/tools/go/packages"
@@ -71,6 +72,8 @@ func runC12(c *Ctx) {
 		return
 	}
 	c12IndexRemap(c, pk)
+	c12IndexValueRemapped(c, pk)
+	batchKeyRule(c, "BATCH-KEY")
 	c12PathIndexPositional(c, pk)
 	info := pk.TypesInfo
 	excluded := pk.Types.Scope().Lookup("inclusionModeExcluded")
@@ -304,6 +307,7 @@ func runC12(c *Ctx) {
 	}
 
 	c12CopyMode(c, pk)
+	c12CopyModeFlow(c, pk)
 	c12Extra(c, pk)
 }
 
@@ -660,7 +664,9 @@ func c12PathIndexPositional(c *Ctx, pk *packages.Package) {
 			if conv, ok := idx.(*ast.CallExpr); ok && len(conv.Args) == 1 && info.Types[conv.Fun].IsType() {
 				idx = ast.Unparen(conv.Args[0])
 			}
-			inst := declName(fr.Decl) + "/append(" + exprString(call.Args[0]) + ", " + exprString(call.Args[1]) + ")"
+			// the instance is named by what the path addresses (the field tag the base path ends in), so that renaming
+			// the receiver type or the locals does not turn a listed finding into a new one
+			inst := fr.Decl.Name.Name + "/index-under-" + c12BaseTag(info, body, call.Args[0])
 			v := identObj(info, idx)
 			if v == nil {
 				c.Ob(rule, inst, call.Pos(), false, true, "the appended index %s is not a local variable the rule can classify", exprString(idx))
@@ -675,4 +681,277 @@ func c12PathIndexPositional(c *Ctx, pk *packages.Package) {
 			return true
 		})
 	}
+}
+
+// c12IndexValueRemapped (INDEX-VALUE-REMAPPED, round 2): weak_dependency holds indexes into the dependency list. When
+// the rewriter drops imports, the surviving entries must be the *new* positions, i.e. values read from the old->new
+// table that the same function builds (a slice it makes itself), never the old values carried over: those still
+// type-check, still lie inside the list as long as only later imports were dropped, and silently mark the wrong
+// import weak otherwise. Decided on SSA: every element appended to an []int32 result of the dependency remapper is a
+// load from a slice made in that function.
+func c12IndexValueRemapped(c *Ctx, pk *packages.Package) {
+	const rule = "INDEX-VALUE-REMAPPED"
+	c.Rule(rule, "index values written to a rebuilt index list are read from the old->new table, not carried over", 1)
+	p := c.P
+	n := 0
+	for _, sf := range p.SSAFuncsOf([]*packages.Package{pk}) {
+		res := sf.Signature.Results()
+		// the dependency remapper: returns the new []string list together with []int32 index lists
+		hasStr, idx := false, []int{}
+		for i := 0; i < res.Len(); i++ {
+			sl, ok := res.At(i).Type().Underlying().(*types.Slice)
+			if !ok {
+				continue
+			}
+			if b, ok := sl.Elem().Underlying().(*types.Basic); ok {
+				switch b.Kind() {
+				case types.String:
+					hasStr = true
+				case types.Int32:
+					idx = append(idx, i)
+				}
+			}
+		}
+		if !hasStr || len(idx) == 0 || sf.Parent() != nil {
+			continue
+		}
+		for _, call := range callsIn(sf) {
+			if !isBuiltinCall(call.Call, "append") || len(call.Call.Args) != 2 {
+				continue
+			}
+			sl, ok := call.Call.Args[0].Type().Underlying().(*types.Slice)
+			if !ok {
+				continue
+			}
+			if b, ok := sl.Elem().Underlying().(*types.Basic); !ok || b.Kind() != types.Int32 {
+				continue
+			}
+			// does this append feed an index-list result?
+			feeds := false
+			for _, r := range returnsOf(sf) {
+				for _, i := range idx {
+					if i < len(r.Results) && dependsOnValue(r.Results[i], call.Value) {
+						feeds = true
+					}
+				}
+			}
+			if !feeds {
+				continue
+			}
+			for _, el := range variadicElems(call.Call.Args[1]) {
+				n++
+				fromTable := false
+				if u, ok := stripConv(el).(*ssa.UnOp); ok && u.Op == token.MUL {
+					if ia, ok := u.X.(*ssa.IndexAddr); ok {
+						sliceBack(ia.X, func(x ssa.Value) bool {
+							if _, isMake := x.(*ssa.MakeSlice); isMake && types.Identical(x.Type(), ia.X.Type()) {
+								fromTable = true
+							}
+							return !fromTable
+						})
+					}
+				}
+				c.Ob(rule, ssaFuncName(sf)+"/append#"+fmt.Sprint(n), call.Pos(), fromTable, true, "the index appended to the rebuilt index list is a load from a table made in this function: %v (%s)", fromTable, el.String())
+			}
+		}
+	}
+}
+
+// c12CopyModeFlow (COPY-MODE, flow-sensitive part, round 2): the syntactic pass above accepts a store through a local
+// that is cloned *somewhere* in the function. This pass decides it on SSA: the pointer a descriptor field is stored
+// through must be fresh on every path that reaches the store - produced by a clone helper (maybeClone / shallowClone /
+// proto.Clone), a new value, or a parameter that is documented as the copy - or the store must sit on the true edge
+// of the in-place option. A φ that merges the cloned value with the original element (clone only when the path
+// changed, then clear the comments regardless) writes into the caller's image in copying mode.
+func c12CopyModeFlow(c *Ctx, pk *packages.Package) {
+	p := c.P
+	// contradict: the predecessor a φ edge comes from is only reached when a condition has the opposite value to the
+	// one the store is guarded by (clone `if noComment || moved`, clear the comments `if noComment`): the edge is
+	// infeasible for this store.
+	type polar struct {
+		v   ssa.Value
+		val bool
+	}
+	guardsOf := func(b *ssa.BasicBlock) []polar {
+		var out []polar
+		for _, ge := range guardingEdges(b) {
+			cv, pos := condPolarity(ge.If.Cond)
+			out = append(out, polar{cv, ge.Branch == pos})
+		}
+		return out
+	}
+	contradict := func(pred, at *ssa.BasicBlock) bool {
+		for _, g1 := range guardsOf(pred) {
+			for _, g2 := range guardsOf(at) {
+				if g1.v == g2.v && g1.val != g2.val {
+					return true
+				}
+			}
+		}
+		return false
+	}
+	var fresh func(v ssa.Value, at *ssa.BasicBlock, seen map[ssa.Value]bool) bool
+	fresh = func(v ssa.Value, at *ssa.BasicBlock, seen map[ssa.Value]bool) bool {
+		if seen[v] {
+			return true
+		}
+		seen[v] = true
+		switch x := v.(type) {
+		case *ssa.Const:
+			return x.IsNil() // a store through nil faults; it cannot write into the input image
+		case *ssa.Alloc:
+			// a new struct (&T{}); a spilled pointer variable is handled at its load
+			if _, isPtr := x.Type().(*types.Pointer).Elem().Underlying().(*types.Pointer); !isPtr {
+				return true
+			}
+			return false
+		case *ssa.Call:
+			if fn := staticCalleeObj(&x.Call); fn != nil {
+				n := strings.ToLower(fn.Name())
+				return strings.Contains(n, "clone") || strings.HasPrefix(n, "new")
+			}
+			return false
+		case *ssa.Phi:
+			for i, e := range x.Edges {
+				if at != nil && i < len(x.Block().Preds) && contradict(x.Block().Preds[i], at) {
+					continue
+				}
+				if !fresh(e, at, seen) {
+					return false
+				}
+			}
+			return true
+		case *ssa.TypeAssert:
+			return fresh(x.X, at, seen)
+		case *ssa.ChangeType:
+			return fresh(x.X, at, seen)
+		case *ssa.Extract:
+			// (value, changed, err) := helper(...): the value is fresh when the store is on the `changed` edge and the
+			// helper returns a fresh value whenever it reports a change
+			call, ok := x.Tuple.(*ssa.Call)
+			if !ok || at == nil {
+				return false
+			}
+			callee := call.Call.StaticCallee()
+			if callee == nil || callee.Blocks == nil {
+				return false
+			}
+			for _, g := range guardsOf(at) {
+				ex, ok := g.v.(*ssa.Extract)
+				if !ok || ex.Tuple != x.Tuple || !g.val {
+					continue
+				}
+				if b, ok := ex.Type().Underlying().(*types.Basic); !ok || b.Kind() != types.Bool {
+					continue
+				}
+				okAll := true
+				for _, r := range returnsOf(callee) {
+					if cst, ok := r.Results[ex.Index].(*ssa.Const); ok && cst.Value != nil && cst.Value.ExactString() == "false" {
+						continue
+					}
+					if !fresh(r.Results[x.Index], nil, map[ssa.Value]bool{}) {
+						okAll = false
+					}
+				}
+				if okAll {
+					return true
+				}
+			}
+			return false
+		case *ssa.Parameter:
+			return strings.HasPrefix(x.Name(), "new") || strings.HasPrefix(x.Name(), "dst")
+		case *ssa.UnOp:
+			if x.Op == token.MUL {
+				if al, ok := x.X.(*ssa.Alloc); ok {
+					okAll, any := true, false
+					for _, ref := range *al.Referrers() {
+						if st, ok := ref.(*ssa.Store); ok && st.Addr == ssa.Value(al) {
+							any = true
+							if !fresh(st.Val, nil, seen) {
+								okAll = false
+							}
+						}
+					}
+					return any && okAll
+				}
+			}
+		}
+		return false
+	}
+	n := 0
+	for _, sf := range p.SSAFuncsOf([]*packages.Package{pk}) {
+		for _, f := range allSSAFuncs(sf) {
+			if !strings.HasSuffix(p.FileRel(f.Pos()), "image_filter.go") {
+				continue
+			}
+			k := 0
+			for _, b := range f.Blocks {
+				for _, ins := range b.Instrs {
+					st, ok := ins.(*ssa.Store)
+					if !ok {
+						continue
+					}
+					fa, ok := st.Addr.(*ssa.FieldAddr)
+					if !ok {
+						continue
+					}
+					pt, ok := fa.X.Type().Underlying().(*types.Pointer)
+					if !ok || !strings.HasPrefix(namedPath(pt.Elem()), "google.golang.org/protobuf/types/descriptorpb.") {
+						continue
+					}
+					n++
+					k++
+					okStore := fresh(fa.X, b, map[ssa.Value]bool{})
+					why := "the target is a clone / new value on every path"
+					if !okStore {
+						for _, ge := range guardingEdges(b) {
+							cv, pos := condPolarity(ge.If.Cond)
+							if u, ok := cv.(*ssa.UnOp); ok && u.Op == token.MUL {
+								if gfa, ok := u.X.(*ssa.FieldAddr); ok {
+									if st, ok := gfa.X.Type().Underlying().(*types.Pointer).Elem().Underlying().(*types.Struct); ok && strings.Contains(strings.ToLower(st.Field(gfa.Field).Name()), "inplace") && ge.Branch == pos {
+										okStore, why = true, "guarded by the in-place option"
+									}
+								}
+							}
+						}
+					}
+					fieldName := pt.Elem().Underlying().(*types.Struct).Field(fa.Field).Name()
+					c.Ob("COPY-MODE", "flow:"+ssaFuncName(f)+"/"+namedName(pt.Elem())+"."+fieldName+"#"+fmt.Sprint(k), st.Pos(), okStore, true, "store to %s.%s: %s", namedName(pt.Elem()), fieldName, map[bool]string{true: why, false: "on some path the pointer is not a clone (an original element of the input image is written to in copying mode)"}[okStore])
+				}
+			}
+		}
+	}
+	if n == 0 {
+		c.Note("COPY-MODE/flow: no direct descriptor field stores in image_filter.go")
+	}
+}
+
+// c12BaseTag names the last component of a base source path: the constant tag it was extended with
+// (`weakDependencyPath := append(sourcePath, fileWeakDependencyTag)` -> "tag11"), or "path-parameter".
+func c12BaseTag(info *types.Info, body *ast.BlockStmt, base ast.Expr) string {
+	id, ok := ast.Unparen(base).(*ast.Ident)
+	if !ok {
+		return "expr"
+	}
+	o := info.Uses[id]
+	tag := ""
+	ast.Inspect(body, func(n ast.Node) bool {
+		as, ok := n.(*ast.AssignStmt)
+		if !ok || len(as.Lhs) != 1 || len(as.Rhs) != 1 || identObj(info, as.Lhs[0]) != o {
+			return true
+		}
+		if call, ok := ast.Unparen(as.Rhs[0]).(*ast.CallExpr); ok && len(call.Args) == 2 {
+			if tv, ok := info.Types[call.Args[1]]; ok && tv.Value != nil {
+				tag = "tag" + tv.Value.ExactString()
+			}
+		}
+		return true
+	})
+	if tag != "" {
+		return tag
+	}
+	if v, ok := o.(*types.Var); ok && v != nil {
+		return "path-parameter"
+	}
+	return "expr"
 }
